@@ -76,6 +76,19 @@ func mkDesc(a absDesc, r *rand.Rand, viaDecode bool) scte35.SegmentationDescript
 		}
 		s.SetTier(uint16(r.Intn(4096)))
 	}
+	if r != nil && r.Intn(3) == 0 {
+		// the descriptor belonged to another signal (another time, or none) before it was moved into this one: it refers to
+		// the signal that carries it now
+		donor := scte35.CreateSCTE35()
+		if r.Intn(2) == 0 {
+			cmd := scte35.CreateTimeSignalCommand()
+			cmd.SetHasPTS(true)
+			donor.SetCommandInfo(cmd)
+			donor.SetPTS(gots.PTS((a.PTS + 1 + uint64(r.Int63n(1<<32))) % (1 << 33)))
+		}
+		donor.SetDescriptors([]scte35.SegmentationDescriptor{d})
+		donor.SetDescriptors(nil)
+	}
 	s.SetDescriptors([]scte35.SegmentationDescriptor{d})
 	if viaDecode {
 		data := s.UpdateData()
